@@ -2153,6 +2153,13 @@ class Parameters:
                 )
 
             pobj = objects.get(name)
+            if (pobj is not None and getattr(pobj, 'check_on_set', True) is False
+                and pobj.per_instance and name not in self._param__private.params
+                and not getattr(type(self)._param__private, 'disable_instance_params', False)):
+                # A Parameter that records the values it is given (an open
+                # Selector) records this one on the instance's own copy,
+                # not on the Parameter shared with the class
+                self._param__private.params[name] = _instantiate_param_obj(pobj, self)
             if pobj is None or not pobj.allow_refs:
                 # Until Parameter.allow_refs=True by default we have to
                 # speculatively evaluate a values to check whether they
